@@ -137,7 +137,7 @@ class Emitter:
                     at = []
                     if a["kind"] in ("opt", "flag"):
                         if a["short"] is True: at.append("short")
-                        elif a["short"] is not None: at.append("short = %s" % rust_char(a["short"]))
+                        elif a["short"] is not None: at.append("short = %s" % (rust_str(a["short"]) if a.get("short_str") else rust_char(a["short"])))
                         if a["long"] is True: at.append("long")
                         elif a["long"] is not None: at.append("long = %s" % rust_str(a["long"]))
                     if a.get("valname") is not None:
@@ -419,7 +419,7 @@ def corpus_sets():
     # 3: multi-byte names and option characters
     sets.append({"kind": "enum", "enum": {"title": "Команды", "cmds": [
         unit("Privet", name="привет", doc="Приветствие"), unit("Prikaz", name="приказ"),
-        unit("Led1", name="led-佐"), unit("Led2", name="led-佗"),
+        unit("Led1", name="led-佐"), unit("Led2", name="led-佗"), unit("Smile", name="go-😀x"), unit("Set", name="set-温"),
         {"variant": "Opt", "name": "опция", "doc": None, "sub": None, "args": [
             arg("zh", "flag", "bool", short="ж", long="жук"), arg("eu", "opt", "char", short="€", optional=True), arg("rest", optional=True)]}]}})
     # 4, 5: one name a proper prefix of another, declared shorter-first and longer-first
@@ -437,7 +437,7 @@ def corpus_sets():
     sets.append({"kind": "enum", "enum": {"title": None, "cmds": [
         {"variant": "Conf", "name": None, "doc": "Configure\n\n\nSecond paragraph\nsame paragraph.\n \n\n  \nThird..", "sub": None, "args": [
             arg("task", "opt", "str", long="job", short=True, doc="\nLeading blank line"),
-            arg("out_file", "opt", "str", long=True, short="o", optional=True, doc="Two\n\n\n\nparagraphs."),
+            dict(arg("out_file", "opt", "str", long=True, short="o", optional=True, doc="Two\n\n\n\nparagraphs."), short_str=True),
             arg("quiet", "flag", "bool", long="silent", short=True, optional=True),
             arg("level", "opt", "i16", long="amount", short=True, default=("s", "-3")),
             arg("in_file", doc="Trailing blank\n\n")]},
@@ -488,6 +488,8 @@ def rand_enum(rng, depth=0, used=None):
                     else: default = rng.choice([("s", "true"), ("v", ("b", True)), ("d",)])
                 valname = rng.choice([None, None, "VAL", "lvl"]) if kind != "flag" else None
                 args.append(arg(f, kind, ty, long=long_, short=short, optional=optional, default=default, valname=valname, doc=rng.choice([None, "Some arg", "Help text."])))
+                if short not in (None, True) and rng.randrange(3) == 0:
+                    args[-1]["short_str"] = True          # `short = "x"` (string form) instead of `short = 'x'`
             # duplicate generated short names are legal Rust (first arm wins) but produce unreachable-pattern warnings only
             if want_sub:
                 sub = {"optional": rng.randrange(3) == 0, "enum": rand_enum(rng, depth + 1), "field": rng.choice(["command", "cmd"]) if args or rng.randrange(2) else None}
